@@ -431,6 +431,28 @@ func RunXMSS(ep *Episode) *Result {
 			}
 		case "crash":
 			x.doCrash(op)
+		case "sibling", "other":
+			// the process also works with another key meanwhile: one built from the
+			// SAME seed with another hash function (sibling), or an unrelated one
+			// (other). Neither may influence this key.
+			x.stepNo++
+			sd := x.seed
+			ohf := xmss.SHAKE_128
+			if x.hashFn == xmss.SHAKE_128 {
+				ohf = xmss.SHAKE_256
+			}
+			if op.K == "other" {
+				core.NewRand(op.MS ^ 0x07).Bytes(sd[:])
+				ohf = xmss.HashFunction(op.MS % 3)
+			}
+			guard(func() {
+				k := xmss.NewXMSSFromSeed(sd, 4, ohf, common.SHA256_2X)
+				k.SetIndex(uint32(op.MS % 5))
+				if _, err := k.Sign([]byte("another key")); err != nil {
+					panic(err)
+				}
+			})
+			x.res.Probes.Add("other-key-in-process:"+op.K, 1)
 		default:
 			panic("unknown op kind " + op.K)
 		}
